@@ -18,10 +18,10 @@ import impl
 import lib
 from lib import coq_bool, coq_list, coq_nat, coq_string
 
-COQ_TARGETS = ["theories/Proofs/SlottedLemmas.vo", "theories/Model/SlottedEq.vo"]
+COQ_TARGETS = ["theories/Proofs/SlottedLemmas.vo", "theories/Proofs/SlottedStateLemmas.vo", "theories/Model/SlottedEq.vo"]
 THEOREMS = ["C19_never_raises", "C19_stack_empty_after_success", "C19_stack_restored", "C19_slots_exact",
             "C19_slots_own_fields", "C19_chain", "C19_no_dict", "C19_weakref_iff", "C19_preserved", "C19_nothing_else",
-            "C19_defaults", "C19_super_safe", "C19_refuted_zero_arg_super", "C19_full_is_false", "C19_refuted_weakref_base",
+            "C19_defaults", "C19_super_safe", "C19_setstate_restores", "C19_refuted_setstate_bare_dict", "C19_refuted_zero_arg_super", "C19_full_is_false", "C19_refuted_weakref_base",
             "C19_refuted_stack_leak", "C19_refuted_inherited_hooks"]
 MOD_O, MOD_S, MOD_C = "verif_c19_orig", "verif_c19_slot", "verif_c19_corr"
 
@@ -65,6 +65,9 @@ def prove(run: lib.Run):
         "C19: that the *same* method objects (dataclass-generated __init__/__eq__/__hash__/__repr__, user methods) behave "
         "identically on slot storage is CPython descriptor semantics; exercised by the behavioural oracle only -> the "
         "behavioural clauses (construct/compare/hash/repr/copy/pickle) are 'partial'",
+        "C19: getstate (Model/SlottedState.v) is a contract for CPython's default object.__getstate__ (state = dict part "
+        "alone, or (dict part, slot values) when a slot holds a value; empty dict -> None); sampled against the interpreter "
+        "on every run (correspondence layer 'getstate-law'), not proved",
         "C19: custom metaclasses are outside the model (result Unmodelled; excluded by c_plain_meta = true)",
     ]
 
@@ -254,6 +257,114 @@ def emit_step(st):
 
 
 # ----------------------------------------------------------------------------------
+# instance level: _slots_setstate and the object.__getstate__ contract
+# ----------------------------------------------------------------------------------
+
+def member_slots(cls):
+    return sorted({n for c in cls.__mro__ for n, v in vars(c).items() if isinstance(v, types.MemberDescriptorType)})
+
+
+def emit_store(d):
+    return coq_list(["(%s, OId %s)" % (coq_string(k), coq_nat(v)) for k, v in d.items()], "(attr * obj)")
+
+
+def emit_pstate(st):
+    if st is None:
+        return "SNone"
+    if isinstance(st, dict):
+        return f"(SDict {emit_store(st)})"
+    return "(SSeq %s)" % coq_list(["None" if p is None else f"(Some {emit_store(p)})" for p in st], "(option store)")
+
+
+def gen_state(rng, names):
+    pool = list(names) + ["x", "y", "cv", "_derived"]
+    n = [0]
+
+    def d(keys_from=None):
+        ks = rng.sample(keys_from or pool, rng.randint(0, min(3, len(keys_from or pool))))
+        out = {}
+        for k in ks:
+            n[0] += 1
+            out[k] = n[0]
+        return out
+    r = rng.random()
+    if r < 0.05:
+        return None
+    if r < 0.2:
+        return d()
+    if r < 0.65:      # what object.__getstate__ produces
+        nonslot = [k for k in pool if k not in names]
+        return (rng.choice([None, d(nonslot), d(nonslot)]), d(list(names)) if names else {})
+    parts = [rng.choice([None, d(), d()]) for _ in range(rng.randint(0, 3))]
+    return tuple(parts) if rng.random() < 0.7 else parts
+
+
+def setstate_cases(rng, cls, k=4):
+    """call the installed __setstate__ on blank instances with generated states"""
+    fn = vars(cls).get("__setstate__")
+    if not (inspect.isfunction(fn) and fn.__name__ == "_slots_setstate"):
+        return []
+    names = member_slots(cls)
+    has_dict = cls.__dictoffset__ != 0
+    out = []
+    for _ in range(k):
+        st = gen_state(rng, names)
+        o = object.__new__(cls)
+        try:
+            fn(o, st)
+            kind = "SKOk"
+        except AttributeError:
+            kind = "SKAttr"
+        except TypeError:
+            kind = "SKType"
+        except Exception:          # noqa: BLE001
+            kind = "SKOther"
+        slots = {n_: getattr(o, n_) for n_ in names if hasattr(o, n_)} if kind == "SKOk" else {}
+        dct = dict(vars(o)) if (has_dict and kind == "SKOk") else {}
+        desc = {"slotnames": names, "has_dict": has_dict, "state": repr(st), "kind": kind, "slots": slots, "dict": dct}
+        try:
+            coq = "(%s, %s, %s, %s, %s, %s)" % (emit_strs(names), coq_bool(has_dict), emit_pstate(st), kind,
+                                                emit_store(slots), emit_store(dct))
+        except Exception as e:          # noqa: BLE001
+            desc["emit_error"] = repr(e)
+            coq = None
+        out.append((desc, coq))
+    return out
+
+
+def getstate_cases(rng, cls, k=2):
+    """object.__getstate__ on instances of a slotted class with randomly filled slots / __dict__"""
+    if "__getstate__" in {n for c in cls.__mro__[:-1] for n in vars(c)}:
+        return []
+    names = member_slots(cls)
+    has_dict = cls.__dictoffset__ != 0
+    out = []
+    for _ in range(k):
+        o = object.__new__(cls)
+        slots = {n_: j + 1 for j, n_ in enumerate(rng.sample(names, rng.randint(0, len(names))))}
+        for n_, v in slots.items():
+            object.__setattr__(o, n_, v)
+        dct = {}
+        if has_dict:
+            dct = {n_: 50 + j for j, n_ in enumerate(rng.sample(["x", "y", "_derived"], rng.randint(0, 2)))}
+            vars(o).update(dct)
+        st = o.__getstate__()
+        desc = {"slotnames": names, "has_dict": has_dict, "slots": slots, "dict": dct, "state": repr(st)}
+        try:
+            inst = "{| i_slotnames := %s; i_slots := %s; i_dict := %s |}" % (
+                emit_strs(names), emit_store(slots), f"(Some {emit_store(dct)})" if has_dict else "None")
+            coq = "(%s, %s)" % (inst, emit_pstate(st))
+        except Exception as e:          # noqa: BLE001
+            desc["emit_error"] = repr(e)
+            coq = None
+        out.append((desc, coq))
+    return out
+
+
+INSTANCE_RNG = random.Random(0)
+INSTANCE_CASES = {"setstate": [], "getstate-law": []}
+
+# ----------------------------------------------------------------------------------
 # correspondence
 # ----------------------------------------------------------------------------------
 
@@ -273,6 +384,8 @@ def corr_steps(prog):
         steps.append({"index": i, "flags": flags, "cls": desc, "obs": observe(c, new, exc)})
         if exc is not None:
             raise exc
+        INSTANCE_CASES["setstate"] += setstate_cases(INSTANCE_RNG, new)
+        INSTANCE_CASES["getstate-law"] += getstate_cases(INSTANCE_RNG, new)
         return new
 
     mod = run_program(prog, MOD_C, hook)
@@ -306,7 +419,39 @@ def load_corpus():
     return out
 
 
+def eval_flat(run, layer, okfn, ctype, items, cap):
+    """one flat list of cases per shard; returns mismatching descriptions"""
+    items = items[:cap]
+    hdr = ("From Coq Require Import List String. Import ListNotations.\n"
+           "Require Import TL.Model.Slotted TL.Model.SlottedState TL.Model.SlottedEq.\n")
+    bad = [i for i, (_, c) in enumerate(items) if c is None]
+    ok_idx = [i for i, (_, c) in enumerate(items) if c is not None]
+    files, maps = {}, {}
+    for k in range(0, len(ok_idx), 500):
+        idxs = ok_idx[k:k + 500]
+        name = f"cases_{layer.replace('-', '_')}_{k // 500}.v"
+        files[name] = hdr + f"Definition cases : list {ctype} :=\n " + ";\n  ".join(
+            ["[ " + items[idxs[0]][1]] + [items[i][1] for i in idxs[1:]]) + " ].\nEval vm_compute in mismatches " + okfn + " cases.\n"
+        maps[name] = idxs
+    for name, r in run.coq_eval_many(files, timeout=900).items():
+        if r is None:
+            run.oblige(f"evaluate:{name}", False, "model evaluation did not compile")
+            bad += maps[name]
+        else:
+            bad += [maps[name][j] for j in lib.parse_nat_list(r[-1])]
+    bad = sorted(set(bad))
+    distinct = len({json.dumps(d, sort_keys=True, default=str) for d, _ in items})
+    dist = {}
+    for d, _ in items:
+        key = f"dict={int(d['has_dict'])},nslots={min(len(d['slotnames']), 4)}" + (f",{d['kind']}" if "kind" in d else "")
+        dist[key] = dist.get(key, 0) + 1
+    run.record_corr(layer, len(items), [items[i][0] for i in bad], distinct, dist)
+
+
 def correspond(run: lib.Run):
+    INSTANCE_RNG.seed(run.seed + 1919)
+    for v in INSTANCE_CASES.values():
+        v.clear()
     progs = corr_programs(run)
     cases, coq = [], []
     dist = {"programs": 0, "steps": 0, "invalid_specs": 0, "raised": 0, "frozen": 0, "with_base_slotted": 0,
@@ -382,6 +527,10 @@ def correspond(run: lib.Run):
                 m["explained_by_variants[pinned,release,skip,hooks]"] = x
     run.record_corr("slotted", len(cases), mism + [{}] * max(0, len(bad) - len(mism)), len(seen), dist)
     run.corr["slotted"]["mismatching_programs"] = [cases[i]["program"] for i in bad[:40]]
+    cap = run.budget(2000, 12000)
+    eval_flat(run, "setstate", "ss_case_ok", "ss_case", INSTANCE_CASES["setstate"], cap)
+    eval_flat(run, "getstate-law", "gs_case_ok", "gs_case", INSTANCE_CASES["getstate-law"], cap)
+    run.laws["object.__getstate__ contract (getstate)"] = min(len(INSTANCE_CASES["getstate-law"]), cap)
     if cases:
         run.samples.append({"corr_sample": {"program": cases[-1]["program"], "steps": cases[-1]["steps"][:1]}})
 
@@ -404,10 +553,81 @@ def _try(f):
     try:
         return ["ok", f()]
     except Exception as e:
-        return ["exc", type(e).__name__, str(e)[:80]]
+        return ["exc", type(e).__name__, str(e)[:120]]
 
 
-def behave(mod, cls):
+def leaf_diffs(plain, slot, path=""):
+    """(path, plain value, slotted value) for every leaf on which two observations differ"""
+    if isinstance(plain, dict) and isinstance(slot, dict):
+        return [x for k in sorted(set(plain) | set(slot)) for x in leaf_diffs(plain.get(k), slot.get(k), f"{path}/{k}")]
+    if (isinstance(plain, list) and isinstance(slot, list) and len(plain) == len(slot)
+            and not (plain[:1] == ["exc"] or slot[:1] == ["exc"])):
+        return [x for k, (a, b) in enumerate(zip(plain, slot)) for x in leaf_diffs(a, b, f"{path}[{k}]")]
+    return [] if plain == slot else [(path, plain, slot)]
+
+
+def _cached_names(cls):
+    import functools
+    return sorted({k for c in cls.__mro__ for k, v in vars(c).items() if isinstance(v, functools.cached_property)})
+
+
+def observable(obj, cls):
+    """everything one can see on an instance, as JSON; raw storage first (reading a cached_property would refill it)"""
+    fnames = [f.name for f in dataclasses.fields(cls)]
+    out = {"type_is_cls": type(obj) is cls}
+    try:
+        d = obj.__dict__
+    except AttributeError:
+        d = {}
+    except Exception as e:          # noqa: BLE001
+        d = {"<__dict__>": f"{type(e).__name__}: {e}"}
+    out["vars_nonfield"] = {k: repr(v) for k, v in sorted(d.items()) if k not in fnames}
+    out["fields"] = {n: _try(lambda n=n: repr(getattr(obj, n))) for n in fnames}
+    slotnames = sorted({n for c in type(obj).__mro__ for n in (vars(c).get("__slots__") or ()) if isinstance(n, str)}
+                       - set(fnames) - {"__dict__", "__weakref__"})
+    out["other_slots"] = {n: _try(lambda n=n: repr(getattr(obj, n))) for n in slotnames}
+    out["repr"] = _try(lambda: repr(obj))
+    attrs = {}
+    for k in sorted(set(dir(obj))):
+        if k.startswith("__"):
+            continue
+        try:
+            static = inspect.getattr_static(type(obj), k)
+        except AttributeError:
+            static = None
+        if inspect.isfunction(static) or isinstance(static, (classmethod, staticmethod)):
+            continue
+        attrs[k] = _try(lambda k=k: repr(getattr(obj, k)))
+    out["attrs"] = attrs
+    return out
+
+
+def roundtrip(cls, make, op, prepare, allow_extra=True):
+    a = make()
+    if prepare:
+        for k in _cached_names(cls):
+            getattr(a, k)
+        if allow_extra:                                 # only where the slotted twin has an instance __dict__ as well
+            a.__dict__["_xtra"] = {"k": [1, 2]}        # straight into the instance dict: works for frozen classes too
+    before = observable(a, cls)
+    r = op(a)
+    res = {"result": observable(r, cls), "source_unchanged": observable(a, cls) == before,
+           "is_source": r is a, "eq": _try(lambda: [r == a, a == r, hash(r) == hash(a)])}
+    # sharing of mutable members: copy shares, deepcopy / pickle do not
+    share = {}
+    da, dr = getattr(a, "__dict__", {}), getattr(r, "__dict__", {})
+    for f in dataclasses.fields(cls):
+        va, vr = getattr(a, f.name, None), getattr(r, f.name, None)
+        if isinstance(va, (list, dict)):
+            share[f.name] = va is vr
+    for k, va in da.items():
+        if isinstance(va, (list, dict)) and k not in share:
+            share[k] = dr.get(k) is va
+    res["shares_mutables"] = share
+    return res
+
+
+def behave(mod, cls, allow_extra=True):
     """what the statement talks about, as a JSON-able dict (reprs are module independent)"""
     out = {}
     if not dataclasses.is_dataclass(cls):
@@ -447,15 +667,20 @@ def behave(mod, cls):
     out["eq_foreign"] = _try(lambda: [a == 1, a == None])  # noqa: E711
     out["hash"] = _try(lambda: [hash(a) == hash(b), hash(a) if type(a).__hash__ is not object.__hash__ else "id-based"])
     out["order"] = _try(lambda: [a < c, a <= b, a > c, a >= b, [repr(x) for x in sorted([c, a])]]) if c is not None else _try(lambda: [a < b, a <= b])
-    out["copy"] = _try(lambda: [repr(copy.copy(a)), copy.copy(a) is not a, type(copy.copy(a)) is cls, copy.copy(a) == a])
-    out["deepcopy"] = _try(lambda: [repr(copy.deepcopy(a)), type(copy.deepcopy(a)) is cls, copy.deepcopy(a) == a,
-                                    all(getattr(copy.deepcopy(a), f.name) is not getattr(a, f.name) for f in fac)])
-    if _resolve(mod, cls.__qualname__) is cls:
-        # default protocol and the highest one ("pickled": protocol unspecified -> the interpreter's default; see notes)
-        for proto in (pickle.DEFAULT_PROTOCOL, pickle.HIGHEST_PROTOCOL):
-            out[f"pickle{proto}"] = _try(lambda: (lambda r: [repr(r), type(r) is cls, r == a])(pickle.loads(pickle.dumps(a, proto))))
-    else:
-        out["pickle"] = ["shadowed"]
+    # copy / deepcopy / every pickle protocol: everything observable on the result (and on the source afterwards)
+    # is compared with the plain twin -- fields, the non-field part of vars(), every public attribute, identity
+    # of mutable members.  Twice: on a fresh instance, and on one whose cached properties were read and that got
+    # an extra instance attribute (only where both twins have an instance __dict__ to put it in).
+    picklable = _resolve(mod, cls.__qualname__) is cls
+    ops = [("copy", copy.copy), ("deepcopy", copy.deepcopy)]
+    for proto in range(0, pickle.HIGHEST_PROTOCOL + 1):
+        ops.append((f"pickle{proto}", (lambda o, proto=proto: pickle.loads(pickle.dumps(o, proto))) if picklable else None))
+    for tag, prepare in (("fresh", False), ("used", True)):
+        for name, op in ops:
+            if op is None:
+                out[f"rt:{tag}:{name}"] = ["shadowed"]
+                continue
+            out[f"rt:{tag}:{name}"] = _try(lambda: roundtrip(cls, make, op, prepare, allow_extra))
     p = cls.__dataclass_params__
     out["frozen_param"] = bool(p.frozen)
     if fs:
@@ -583,17 +808,23 @@ def check_program(prog):
         if i in mo._err or i not in mo._c:
             continue
         hooks_chain = [prog[j]["hooks"] for j in [i] + _ancestors(prog, i)]
-        bo = behave(mo, mo._c[i])
+        extra_ok = getattr(new, "__dictoffset__", 0) != 0
+        bo = behave(mo, mo._c[i], extra_ok)
         try:
-            bs = behave(ms, new)
+            bs = behave(ms, new, extra_ok)
         except Exception as e:          # noqa: BLE001
             bs = {"crash": f"{type(e).__name__}: {e}"}
         diff = sorted(k for k in set(bo) | set(bs) if bo.get(k) != bs.get(k))
         if any(h in ("get", "set") for h in hooks_chain):
             # a lone user __getstate__ or __setstate__ relies on the instance __dict__: outside the quantifier
             # ("user __getstate__/__setstate__" is read as the pair); pickling/copying is not compared there
-            diff = [k for k in diff if not (k.startswith("pickle") or k in ("copy", "deepcopy"))]
-        if diff and all(isinstance(bs.get(k), list) and bs[k][0] == "exc" and "super(type, obj)" in bs[k][-1] for k in diff):
+            diff = [k for k in diff if not k.startswith("rt:")]
+        # protocols 0 and 1 refuse every __slots__ class without __getstate__ (copyreg._reduce_ex): the interpreter's
+        # rule for slots, resolved in favour of the code (notes/C19.md); any other difference there counts
+        diff = [k for k in diff if not (k.endswith(("pickle0", "pickle1")) and isinstance(bs.get(k), list)
+                                        and bs[k][0] == "exc" and "__slots__ without defining __getstate__" in bs[k][-1])]
+        leaves = [x for k in diff for x in leaf_diffs(bo.get(k), bs.get(k), k)]
+        if diff and all("super(type, obj)" in json.dumps(sv, default=str) for _, _, sv in leaves):
             fails.append(dict(base, symptom="zero-argument super() fails in a method of the slotted class",
                               keys=["zero-arg-super"], expected={k: bo.get(k) for k in diff},
                               got_map={k: bs.get(k) for k in diff},
@@ -601,7 +832,8 @@ def check_program(prog):
         elif diff:
             fails.append(dict(base, symptom="behaviour differs from the original dataclass", keys=diff,
                               expected={k: bo.get(k) for k in diff}, got_map={k: bs.get(k) for k in diff},
-                              got=json.dumps({k: bs.get(k) for k in diff}, default=str)[:600]))
+                              differences=[{"where": p_, "plain": a_, "slotted": b_} for p_, a_, b_ in leaves[:12]],
+                              got=json.dumps([[p_, b_] for p_, a_, b_ in leaves[:6]], default=str)[:600]))
     impl.drop_module(MOD_O)
     impl.drop_module(MOD_S)
     for f in fails:
@@ -630,10 +862,10 @@ def shrink(prog, pred, budget=150):
                 q = [dict(x) for x in p]
                 q[i]["fields"] = s["fields"][:k] + s["fields"][k + 1:]
                 yield q
-            for key, val in (("hooks", "none"), ("classvar", False), ("method", False), ("super_repr", False),
+            for key, val in (("post_init", False), ("cached", False), ("hooks", "none"), ("classvar", False), ("method", False), ("super_repr", False),
                              ("outer", None), ("order", False), ("unsafe_hash", False), ("eq", True),
                              ("dict", False), ("bare", False), ("base", None), ("frozen", False), ("slot", False)):
-                if s[key] != val:
+                if s.get(key, val) != val:
                     q = [dict(x) for x in p]
                     q[i][key] = val
                     yield q
